@@ -481,6 +481,11 @@ class Normalizer:
             if str(t[2]) == "0":
                 return ("index", x, ("struct", "std::ops::RangeTo", (("end", i),)))
             return ("index", x, ("struct", "std::ops::RangeFrom", (("start", i),)))
+        if k == "field" and len(t) == 3 and t[1][0] == "struct":
+            # a field of a struct literal is the value it was built with
+            for f_, v_ in t[1][2]:
+                if f_ == t[2]:
+                    return v_
         if k == "tproj" and len(t) == 3 and t[1][0] == "tuple" and str(t[2]).isdigit() and int(str(t[2])) < len(t[1][1]):
             return t[1][1][int(str(t[2]))]
         if k == "tproj" and len(t) == 3 and t[1][0] == "elem":
